@@ -504,3 +504,19 @@ def handover_last(chk, ctx, rule) -> None:
             chk.ob(rule, f'State.{name}:handover_last', bad is None, ctx.loc(fi, bad.node) if bad is not None else fi.loc,
                    'nothing is written after the step has handed over to the next one (the automated cascade runs inside that call)',
                    got=stmt_text(bad.node, 80) if bad is not None else f'{n} path(s)')
+
+
+def records_inert(chk, ctx, rule) -> None:
+    """an operation builds its record after it has changed the state: constructing a record must not be able to fail or to do anything -
+    the record classes are plain frozen dataclasses without constructor hooks or validation of their own"""
+    prog = ctx.prog
+    hooks = {'__post_init__', '__init__', '__new__', '__setattr__', '__init_subclass__', '__getattribute__'}
+    bad = []
+    classes = [prog.cls('Operation')] + prog.subclasses('Operation')
+    for ci in classes:
+        for h in sorted(hooks & set(ci.methods)):
+            bad.append((ci, h))
+    chk.analysed['operation_records'] = [c.name for c in classes]
+    chk.ob(rule, 'Operation:records_inert', not bad and len(classes) >= 10, bad[0][0].methods[bad[0][1]].loc if bad else prog.cls('Operation').loc,
+           'operation records are plain data: no constructor hook or validation that could refuse a record after the state has changed',
+           got=[f'{c.name}.{h}' for c, h in bad[:3]] or f'{len(classes)} record classes')
